@@ -12,7 +12,7 @@ export CARGO_TARGET_DIR=$wt/target CARGO_NET_OFFLINE=true RUST_BACKTRACE=0
 out=$wt/CONFIRM.txt
 : > $out
 cd $wt
-if git diff --quiet; then git apply MUTANT/patch.diff || { echo "patch does not apply" >> $out; exit 2; }; fi
+git checkout -- . ; git apply MUTANT/patch.diff || { echo "patch does not apply" >> $out; exit 2; }   # exactly the delivered patch, whatever state the tree was left in
 echo "## suite with the change" >> $out
 cargo test --workspace --no-fail-fast --offline 2>&1 | grep -E "^test result|FAILED|failed" >> $out
 passed=$(grep -E "^test result" $out | sed -E 's/.* ([0-9]+) passed.*/\1/' | paste -sd+ | bc)
